@@ -31,7 +31,7 @@ EXCLUDES = [None, None, None, [], ["*.pyc"], ["lib"], ["src/"], ["**/x"], ["a/*"
 # ---------------------------------------------------------------- tree specs
 # node = ["f", latin1-text] | ["d", [[name, node], ...]] | ["l", target]
 def gen_dir(rng, depth, max_depth):
-    n = rng.choice([2, 3, 4, 5, 6]) if depth == 0 else rng.choice([0, 1, 2, 3, 4])
+    n = rng.choice([2, 3, 4, 5, 6, 7]) if depth == 0 else rng.choice([0, 1, 2, 3, 4, 5])
     out = []
     for nm in rng.sample(NAMES, n):
         if depth >= max_depth or rng.random() < 0.58:
@@ -257,13 +257,16 @@ def gen_case(rng):
     cands = [relpath(eff, c) for c, _, _, _ in nodes if c[:len(eff)] == eff and len(c) > len(eff)]
     if len(eff) > 0:
         cands += [relpath(eff, c) for c, _, _, _ in rng.sample(nodes, min(2, len(nodes)))]
+    dirc = [relpath(eff, c) for c, kd, _, _ in nodes if kd == "d" and c[:len(eff)] == eff and len(c) > len(eff)]
     arts = []
     for _ in range(rng.choice([1, 1, 2, 2, 3, 4])):
         r = rng.random()
-        if r < 0.22 or not cands:
-            arts.append(rng.choice([".", ".", "./", "file:", "file:.", ""]))
-        elif r < 0.30:
+        if r < 0.30 or not cands:
+            arts.append(rng.choice([".", ".", ".", "./", "file:", "file:.", ""]))
+        elif r < 0.36:
             arts.append(rng.choice(["nonexistent", "a/b/c/d", "file:nope", "x/../..", "..", "C:foo", "http://x/y"]))
+        elif r < 0.60 and dirc:
+            arts.append(path_variants(rng, rng.choice(dirc)))
         else:
             arts.append(path_variants(rng, rng.choice(cands)))
     if rng.random() < 0.12:
@@ -276,9 +279,9 @@ def gen_case(rng):
     # prefix-strip lists
     dstr = [relpath(eff, c) + "/" for c, kd, _, _ in nodes if kd in "dl" and c[:len(eff)] == eff and len(c) > len(eff)]
     r = rng.random()
-    if r < 0.40:
+    if r < 0.50:
         lstrip = rng.choice([None, None, None, []])
-    elif r < 0.70 and dstr:
+    elif r < 0.78 and dstr:
         lstrip = rng.sample(dstr, min(len(dstr), rng.choice([1, 2, 2, 3])))
         if twin_pair and rng.random() < 0.7:
             lstrip = [relpath(eff, (twin_pair[0],)) + "/", relpath(eff, (twin_pair[1],)) + "/"]
@@ -301,7 +304,8 @@ def gen_case(rng):
             arts = [rng.choice([".", "/".join(cs[:i + 1]), "file:" + "/".join(cs[:i + 1])])]
         tags.append("lstrip-nested")
     args = {"artifacts": arts, "exclude_patterns": excludes, "base_path": base_path,
-            "follow": rng.random() < 0.5, "normalize": rng.random() < 0.4, "lstrip": lstrip}
+            "follow": rng.random() < (0.7 if "dir" in lkinds or "chain" in lkinds else 0.4),
+            "normalize": rng.random() < 0.4, "lstrip": lstrip}
     # malformed stream
     if rng.random() < 0.06:
         k = rng.choice(["exclude_patterns", "lstrip", "base_path", "artifacts", "lstrip", "base_path"])
@@ -550,7 +554,7 @@ def string_checks(ctx, n):
 def stats(recs):
     st = {"verdicts": {}, "impl_outcomes": {}, "tags": {}, "follow": 0, "normalize": 0, "exclude_hit": 0,
           "with_prefix_list": 0, "scheme_prefixed": 0, "files_recorded_total": 0, "nonempty_results": 0,
-          "overwrites_possible_dup_paths": 0}
+          "results_with_5_or_more_files": 0, "recorded_through_followed_link_dir": 0}
     for r in recs:
         st["verdicts"][r["verdict"]] = st["verdicts"].get(r["verdict"], 0) + 1
         o = "ok" if "ok" in r["impl"] else r["impl"]["err"]
@@ -565,6 +569,10 @@ def stats(recs):
         if "ok" in r["impl"]:
             st["files_recorded_total"] += len(r["impl"]["ok"])
             st["nonempty_results"] += bool(r["impl"]["ok"])
+            st["results_with_5_or_more_files"] += len(r["impl"]["ok"]) >= 5
+            lk = [c for c, kd, _, _ in all_nodes(r["case"]["tree"][1]) if kd == "l"]
+            st["recorded_through_followed_link_dir"] += bool(a["follow"]) and any(
+                ("/" + l[-1] + "/") in ("/" + k) for l in lk for k, _ in r["impl"]["ok"])
     return st
 
 
